@@ -105,7 +105,7 @@ Shadow(p, kp) ==
     ELSE cur' = CurAfter(kp) /\ slot' = SlotAfter(kp)
 
 -----------------------------------------------------------------------------
-InitRes == [op |-> "init", must |-> "either", got |-> FALSE, model |-> FALSE, ident |-> TRUE, extra |-> 0, gen |-> 0, sp |-> "none"]
+InitRes == [op |-> "init", must |-> "either", got |-> FALSE, model |-> FALSE, ident |-> TRUE, extra |-> 0, conn |-> 0, gen |-> 0, sp |-> "none"]
 Init ==
     /\ sgen = 0 /\ sconf = FALSE
     /\ cur = 0 /\ slot = [b \in {0, 1} |-> IF b = 0 THEN 0 ELSE NoKey]
@@ -144,11 +144,12 @@ PhaseOut ==
 \* The receive path was given packet p.  got: it returned a PlainPacket; ident: everything returned equals what was
 \* assembled; extra: number of FURTHER packets delivered out of the same datagram; reg: the caller registered p.pn
 \* (on_rcvd_pn), as the spaces do after the frames were read; model: what the code-shaped machine below predicts
-\* (only used to tell apart "the machine as designed rejects this" from "the code deviates from the machine").
-Monitor(p, got, ident, extra, reg, model) ==
+\* (only used to tell apart "the machine as designed rejects this" from "the code deviates from the machine");
+\* conn: number of presentations answered with a connection error (Some(Err(..))) instead of a silent drop.
+Monitor(p, got, ident, extra, reg, model, conn) ==
     LET m == Must(p)
         good == got /\ m # "reject" IN
-    /\ res' = [op |-> "rx", must |-> m, got |-> got, model |-> model, ident |-> ident, extra |-> extra, gen |-> p.gen, sp |-> p.sp]
+    /\ res' = [op |-> "rx", must |-> m, got |-> got, model |-> model, ident |-> ident, extra |-> extra, conn |-> conn, gen |-> p.gen, sp |-> p.sp]
     /\ auth' = IF good /\ ~IsLong(p.sp) THEN Max(auth, p.gen) ELSE auth
     /\ sconf' = (sconf \/ (good /\ p.sp = "onertt" /\ p.gen = sgen))
     /\ largest' = IF reg THEN [largest EXCEPT ![PnSpace(p.sp)] = Max(@, p.pn)] ELSE largest
@@ -158,7 +159,7 @@ Monitor(p, got, ident, extra, reg, model) ==
 \* design: the code-shaped machine decides
 Recv(p, kp) ==
     LET a == CodeAccepts(p, kp) IN
-    Monitor(p, a, TRUE, 0, a, a) /\ Shadow(p, kp)
+    Monitor(p, a, TRUE, 0, a, a, 0) /\ Shadow(p, kp)
 
 -----------------------------------------------------------------------------
 (* the property *)
@@ -169,6 +170,9 @@ GenuineAccepted == res.must = "accept" => res.got
 \* ... bit for bit (header, packet number, key phase, payload), and nothing else comes out of the datagram
 BitIdentical == res.got => res.ident
 NothingElseDelivered == res.extra = 0
+\* "the receiver DISCARDS it": a packet that did not authenticate must not be answered with a connection error either
+\* (RFC 9000 17.2 / 17.3.1: reserved bits are checked after removing packet protection)
+DiscardedSilently == res.must = "reject" => res.conn = 0
 
 TypeOK ==
     /\ sgen \in Nat /\ sconf \in BOOLEAN /\ cur \in Nat /\ auth \in Nat
@@ -180,5 +184,5 @@ AuthBounded == auth <= sgen
 \* shape of the code's machine
 Shape == cur \in {auth, auth + 1} /\ slot[Phase(cur)] = cur
 
-Inv == TypeOK /\ NoForgedDelivered /\ BitIdentical /\ NothingElseDelivered /\ AuthBounded
+Inv == TypeOK /\ NoForgedDelivered /\ BitIdentical /\ NothingElseDelivered /\ DiscardedSilently /\ AuthBounded
 =============================================================================
